@@ -276,6 +276,84 @@ def gen_levels_lean(X):
     return "\n".join(lines) + "\n"
 
 
+def extract_formatter(X):
+    """keywords.precedence, and every Formatter._x built by Operator(...) (closure cells op/op_prec/ordered)"""
+    from mo_sql_parsing import formatting as F
+    from mo_sql_parsing import keywords as K
+
+    prec = {k: v for k, v in K.precedence.items()}
+    X.data["precedence"] = prec
+    ops = []
+    by_text = {}
+    for o in X.data.get("ops", []):
+        if o["kind"] == "bin":
+            by_text.setdefault(o["text"].upper(), o)
+    for name in sorted(vars(F.Formatter)):
+        f = vars(F.Formatter)[name]
+        if not name.startswith("_") or not callable(f) or not getattr(f, "__closure__", None):
+            continue
+        cells = dict(zip(f.__code__.co_freevars, [c.cell_contents for c in f.__closure__]))
+        if "op_prec" not in cells or "op" not in cells:
+            continue
+        text = str(cells["op"]).strip()
+        info = by_text.get(text.upper())
+        ops.append({
+            "name": name[1:],
+            "text": text,
+            "prec2": int(round(2 * cells["op_prec"])),
+            "ordered": bool(cells.get("ordered", True)),
+            "key": info["key"] if info else None,
+        })
+        if 2 * cells["op_prec"] != int(round(2 * cells["op_prec"])):
+            X.problem("formatter", "precedence of %s is not a multiple of 0.5" % name)
+    X.data["fmt_ops"] = ops
+    X.data["fmt_methods"] = sorted(n for n in dir(F.Formatter) if n.startswith("_") and not n.startswith("__"))
+    X.data["unordered_clauses"] = list(F.unordered_clauses)
+    X.data["ordered_clauses"] = list(F.ordered_clauses)
+    X.data["join_keywords"] = sorted(K.join_keywords)
+
+
+def gen_fmt_lean(X):
+    ops = [o for o in X.data.get("fmt_ops", []) if o["key"] is not None]
+    known = [f for f in load_known() if f["property"] == "C04" and f["key"].startswith("fmt-triple:")]
+    lines = [
+        "import MoSql.Format",
+        "import MoSql.Gen.Levels",
+        "/- GENERATED by tools/extract.py from /repo's working tree — do not edit. -/",
+        "namespace MoSql.Gen",
+        "",
+        "def opInfo (key : String) : OpInfo := (ops.find? (fun o => o.key == key)).getD default",
+        "",
+        "/-- every `Formatter._x = Operator(...)` that writes an expression operator:",
+        "    JSON name, 2 × precedence number, `ordered`, and the parser's row for the text it writes -/",
+        "def fmtOps : List FmtOp := [",
+    ]
+    for i, o in enumerate(ops):
+        sep = "," if i + 1 < len(ops) else ""
+        lines.append("  { name := %s, prec2 := %d, ordered := %s, info := opInfo %s }%s" % (
+            lean_str(o["name"]), o["prec2"], "true" if o["ordered"] else "false", lean_str(o["key"]), sep))
+    lines.append("]")
+    lines.append("")
+    lines.append("/-- (outer, slot, inner) triples listed in known_findings.json for which the formatter is known to omit needed parentheses -/")
+    lines.append("def knownFmtTriples : List (String × Nat × String) := [")
+    ks = []
+    for f in known:
+        o, s_, c = f["key"][len("fmt-triple:"):].split(",")
+        ks.append("  (%s, %s, %s)" % (lean_str(o), s_, lean_str(c)))
+    lines.append(",\n".join(ks))
+    lines.append("]")
+    lines.append("")
+    lines.append("end MoSql.Gen")
+    return "\n".join(lines) + "\n"
+
+
+def load_known():
+    try:
+        return json.load(open(os.path.join(VERIF, "known_findings.json")))["findings"]
+    except FileNotFoundError:
+        return []
+
+
 def main():
     X = Extraction()
     rec = record_infix()
@@ -290,11 +368,14 @@ def main():
             except Exception as e:
                 X.problem("build", "%s(%r) raised %r" % (name, ac, e))
     extract_levels(X, rec)
+    extract_formatter(X)
 
     changed = []
     gen_dir = os.path.join(VERIF, "lean", "MoSql", "Gen")
     if write_if_changed(os.path.join(gen_dir, "Levels.lean"), gen_levels_lean(X)):
         changed.append("Levels.lean")
+    if write_if_changed(os.path.join(gen_dir, "FmtTable.lean"), gen_fmt_lean(X)):
+        changed.append("FmtTable.lean")
     X.data["problems"] = X.problems
     write_if_changed(os.path.join(VERIF, "build", "gen.json"), json.dumps(X.data, indent=1, sort_keys=True, default=str))
     print(json.dumps({"changed": changed, "problems": X.problems}))
